@@ -141,7 +141,20 @@ pub fn run(sc: &C24Scenario) -> Result<Outcome, String> {
     } else if v.check_diags != r.check_diags || v.build_diags != r.build_diags {
         viol = Some(("diagnostics-set".to_string(), format!("diagnostics set differs: {:?} vs reference {:?}", v.check_diags.iter().map(|d| d.lines().next().unwrap_or("").to_string()).collect::<Vec<_>>(), r.check_diags.iter().map(|d| d.lines().next().unwrap_or("").to_string()).collect::<Vec<_>>())));
     } else {
+        // emitted files showing a recorded order dependence, by file name (their source maps,
+        // wherever the map target puts them, follow)
+        let base = |rel: &str| rel.rsplit('/').next().unwrap_or(rel).to_string();
         let mut known_sv: BTreeSet<String> = BTreeSet::new();
+        if sc.variant.perm_seed.is_some() {
+            for (rel, data) in &r.outputs {
+                if let Some(d) = v.outputs.get(rel)
+                    && d != data
+                    && known_order_shape(rel, d, data, &sc.project).is_some()
+                {
+                    known_sv.insert(base(rel));
+                }
+            }
+        }
         for (rel, data) in &r.outputs {
             let is_list = rel.ends_with(".f") || rel.ends_with(".list.rb");
             match v.outputs.get(rel) {
@@ -185,12 +198,11 @@ pub fn run(sc: &C24Scenario) -> Result<Outcome, String> {
                         break;
                     }
                 }
-                Some(_) if rel.ends_with(".map") && known_sv.contains(rel.trim_end_matches(".map")) => {}
+                Some(_) if rel.ends_with(".map") && known_sv.contains(base(rel).trim_end_matches(".map")) => {}
                 Some(d) if sc.variant.perm_seed.is_some() && known_order_shape(rel, d, data, &sc.project).is_some() => {
                     // a recorded finding (known_findings.json): remembered, the scan goes on so
                     // that any other difference of this run is still reported instead
                     let k = known_order_shape(rel, d, data, &sc.project).unwrap();
-                    known_sv.insert(rel.clone());
                     known.get_or_insert((format!("output-order:{k}"), format!("{rel}: same blocks, other order than the reference build ({k})")));
                 }
                 Some(d) => {
